@@ -18,8 +18,9 @@ META = {
                    "the code is not run. R09.compl: pre and post are complementary on every grid point. R09.pragma: a version is returned only under "
                    "name == \"solidity\" of the pragma directive, for the first such directive. R09.none: without a version every reporting site is unreachable "
                    "(and nothing panics: C04). R09.pattern: the require/last-argument/string-literal pattern and the >= 32 threshold are checked by C05-C08's spec comparison.",
-    "assumptions": ["PartialOrd on (i32,i32,i32) is lexicographic (std contract)", "the regex extraction of the triple from the pragma text is not decided"],
-    "floors": {"R09.walker": 1, "R09.formula": 4, "R09.compl": 1, "R09.pragma": 4, "R09.none": 4, "R09.pattern.must": 4, "R09.pattern.mustnot": 4},
+    "assumptions": ["PartialOrd on (i32,i32,i32) is lexicographic (std contract)",
+                    "R09.extract interprets the version pattern literal with Python's re on a finite grid of pragma spellings (the regex crate's engine is trusted to agree on this fragment)"],
+    "floors": {"R09.walker": 1, "R09.formula": 4, "R09.compl": 1, "R09.pragma": 4, "R09.extract": 3, "R09.none": 4, "R09.pattern.must": 4, "R09.pattern.mustnot": 4},
 }
 
 VERSION_FN = "analyzer::utils::get_solidity_version_from_source_unit"
@@ -254,4 +255,75 @@ def run(ctx, crate):
     srch = [s for s in ss if s.path.endswith("extract_target_from_node")]
     ok2 = len(srch) == 1 and "PragmaDirective" in show(srch[0].args[0]) and srch[0].args[1][0] == "agg" and srch[0].args[1][3][0] == ("param", 1)
     obs.append(Ob("R09.pragma", VERSION_FN, "all pragma directives of the file are candidates", ok2, found=show(srch[0].result)[:90] if srch else None))
+    obs += extract_obligations(crate)
+    return obs
+
+
+EXTRACT_FN = "analyzer::utils::get_solidity_major_minor_patch_version"
+REFERENCE_RE = r"\d+\.\d+\.+\d+"
+
+
+def pragma_texts():
+    """version literals as they appear in `pragma solidity ..;` : one version with every operator spelling, ranges, odd spacing"""
+    out = []
+    vs = ["0.4.24", "0.7.6", "0.8.0", "0.8.3", "0.8.4", "0.8.13", "0.8.19", "0.10.2", "1.0.0", "0.8.40", "10.20.30"]
+    for v in vs:
+        for op in ("", "^", "~", "=", ">", ">=", "<", "<=", "^ ", ">= ", " "):
+            out.append(op + v)
+    for a, b_ in (("0.8.0", "0.9.0"), ("0.7.6", "0.8.4"), ("0.8.4", "0.8.20")):
+        out += [">=%s <%s" % (a, b_), ">%s <=%s" % (a, b_), ">=%s  <%s" % (a, b_), "^%s || ^%s" % (a, b_)]
+    out += ["*", "", "0.8", "^0.8", "0.8.x", "0.8..4", "1.2.3.4.5.6", "v0.8.4", "0.8.4-alpha"]
+    return out
+
+
+def extract_obligations(crate):
+    """R09.extract: the version triple is read off the pragma text as the reference does: the last match of a pattern that agrees with the reference
+    pattern on every pragma spelling of the grid, "0.0.0" when nothing matches, split at '.'. The pattern is a literal of the program: it is
+    interpreted (Python's re, same syntax for this fragment) on a finite grid of texts, the program is not run."""
+    import re
+    import order as O
+    obs = []
+    b = crate.bodies.get(EXTRACT_FN)
+    if b is None:
+        return [Ob("R09.extract", EXTRACT_FN, "anchor missing", False)]
+    ss = S.call_sites(b)
+    regs = [s for s in ss if s.path == "regex::Regex::new"]
+    lit = regs[0].args[0][2] if len(regs) == 1 and regs[0].args and regs[0].args[0][0] == "const" and regs[0].args[0][1] == "str" else None
+    agree, why = False, None
+    if lit is not None:
+        try:
+            cand = re.compile(lit)
+            ref = re.compile(REFERENCE_RE)
+            diff = []
+            for t_ in pragma_texts():
+                a_ = [m.group(0) for m in cand.finditer(t_)]
+                r_ = [m.group(0) for m in ref.finditer(t_)]
+                if (a_[-1] if a_ else None) != (r_[-1] if r_ else None):
+                    diff.append(t_)
+            agree, why = not diff, diff[:5] or "agrees on %d pragma spellings" % len(pragma_texts())
+        except re.error as e:
+            why = "pattern not interpretable: %s" % e
+    obs.append(Ob("R09.extract", EXTRACT_FN, "one version pattern, selecting the same text as the reference pattern on every pragma spelling", bool(agree),
+                  expected="last match equal to the last match of %s" % REFERENCE_RE, found=why if lit is not None else "patterns: %d" % len(regs),
+                  example="pragma solidity ^0.8.13;  (two-digit patch)"))
+    # the text searched is the pragma literal itself
+    srch = [s for s in ss if s.path in ("regex::Regex::captures_iter", "regex::Regex::find_iter", "regex::Regex::find", "regex::Regex::captures")]
+    ok_src = len(srch) == 1 and len(srch[0].args) == 2 and srch[0].args[1] == ("param", 1) and srch[0].path.endswith("_iter")
+    obs.append(Ob("R09.extract", EXTRACT_FN, "every match in the unmodified pragma text is looked at", ok_src,
+                  expected="captures_iter / find_iter over the parameter", found=[(core.short_fn(s.path), show(s.args[1])[:40]) for s in srch]))
+    # last match wins: the loops over the matches run to exhaustion; default 0.0.0; split at '.'
+    early = []
+    for lp in O.loops_of_body(b):
+        early += [b.blocks[x]["tloc"]["line"] for (x, t) in lp.exits()[1]]
+    ret = b.val_local(0)
+    shape = T.is_call(ret, "Iterator::collect") and ret[2] and ret[2][0][0] == "call" and ret[2][0][1].endswith("str>::split") and len(ret[2][0][2]) == 2 and ret[2][0][2][1] in (("const", "str", "."), ("const", "char", "."))
+    x = ret[2][0][2][0] if shape else None
+    alts = list(x[2]) if x is not None and x[0] == "phi" else ([x] if x is not None else [])
+    default = [a for a in alts if a[0] == "const" and a[1] == "str"]
+    matched = [a for a in alts if a not in default]
+    ok_val = shape and len(default) == 1 and default[0][2] == "0.0.0" and len(matched) == 1 and matched[0][0] == "call" and matched[0][1].endswith("::as_str") and \
+        bool(T.calls_in(matched[0], "regex::Regex::new")) and not early
+    obs.append(Ob("R09.extract", EXTRACT_FN, "the components are the '.'-separated pieces of the last match (0.0.0 if none)", bool(ok_val),
+                  expected="split(last match or \"0.0.0\", \".\"), no early exit from the match loops", found=show(ret)[:160] + (" early exit at %s" % early if early else ""),
+                  example="pragma solidity >=0.7.0 <0.9.0;"))
     return obs
